@@ -60,6 +60,10 @@ CHECKS = {
                 technique="bounded-exhaustive enumeration of hostile inputs (raw bytes, length prefixes, nesting, truncations, every command x extreme arguments, control messages with extreme numbers) executed on the real decoder and handler in a watched child process with a counting allocator",
                 text="Every input of four finite families is decoded by the real session codec and handled by the real ForwardHandler (metadata unset and set) on a 2 MiB stack inside a child process; per input the parent records panic, process death (abort, stack overflow, allocator refusal above 1 GiB), peak extra memory (<= 64*len + 4 MiB), wall time (3 s watchdog, 2 s slow limit), reply within 100 virtual seconds or connection close, and that a second connection's PING is still answered.",
                 note="Resource clauses are measured with fixed constants on bounded families - evidence for the explored inputs, not a proof for all lengths. Blocking pops are judged against their own timeout. Trusted: counting allocator, watchdog, Redis stand-in."),
+    "C08": dict(engine="pollmc", cat="fault_enumeration", ref="3/C08",
+                technique="deviation-bounded exhaustive enumeration of environment answers (Pending / Err / EOF / connect failure at every connect, poll_ready, start_send, poll_flush, poll_next) to the real backend connection handling with real CmdCtx tasks",
+                text="BACKEND LEVEL: the real sender stack (gen_sender_factory: CachedSender, RoundRobinSenderGroup, RecoverableBackendNode, handle_backend/handle_conn with retry, ReplyCommitHandler) runs over a scripted connection that answers every request with the id found in the request bytes; scenarios: batching {disabled, fixed, dynamic} x low flush interval {0, 1h} x 1-2 connections x pipelines of 1-3 requests (late submission) x one vanished client; every script with <= 3 (thorough 4) deviations is executed to completion; oracle: every request gets exactly one result, a successful result carries the request's own id and only if the backend received its bytes, nothing stays unanswered.",
+                note="handle_session (client-side ordering) is not exercised by this engine yet. The scripted stream ends after an error item like tokio_util's FramedRead. Trusted: scripted environment, driver time policy (1 ms / 1 s idle advances)."),
 }
 
 NOT_YET = {
